@@ -126,7 +126,10 @@ class Aggregate(list):
             predicate: Callable[[int], bool],
         ) -> None:
             for mutex in mutexes:
-                count = sum([kwargs.get(m, None) is not None for m in mutex])
+                # An empty string is converted to ``None`` when the attribute is
+                # set (cf. ``Types.String`` / ``Types.OneOf``), so it doesn't
+                # count as a member that is present.
+                count = sum([kwargs.get(m, None) not in (None, "") for m in mutex])
                 if not predicate(count):
                     kwargs_ = ", ".join(
                         ["{}={}".format(m, kwargs.get(m, None)) for m in mutex]
